@@ -382,7 +382,7 @@ SACK_ADAPTERS = ("std::iter::Iterator::skip", "std::iter::Iterator::take", "std:
                  "std::iter::Iterator::skip_while", "std::iter::Iterator::take_while", "std::iter::Iterator::chain", "std::iter::IntoIterator::into_iter", "std::iter::Iterator::by_ref")
 
 
-@rule("C04.6", ["C04", "C06", "C01", "C02", "C05", "C03"], ["E4", "E2", "E7"], "receiver and sender agree on what a selective-ACK bit means",
+@rule("C04.6", ["C04", "C06", "C01", "C02", "C05", "C03", "C12", "C18"], ["E4", "E2", "E7"], "receiver and sender agree on what a selective-ACK bit means",
       "Producer (OutOfOrderQueue::selective_ack): bit i is set iff slot filled_front + 1 + i of the reassembly queue is occupied - the range starts at filled_front + 1 (the slot after the first hole), is "
       "enumerated without any shifting adapter, the closure yields the unshifted index exactly for non-default slots, and SelectiveAck::new sets bit idx to true. Consumer (Segments::remove_up_to_ack): bit i "
       "is applied to the segment with sequence number ack_nr + 2 + i - sack_start = ack_nr + 2, the segment iterator is advanced by (sack_start - first_seq_nr) when that is >= 0 and the bit iterator by its "
